@@ -214,7 +214,9 @@ def check_e2e(arc, frac):
     ang = a0 + sgn * sweep * frac
     px, py = cx + rad * math.cos(ang), cy + rad * math.sin(ang)
     res = []
-    for hit in (True, False):
+    # third variant: the same crossing arc issued while the filament is retracted (the verdict on an arc does not
+    # depend on the retraction state)
+    for hit, retracted in ((True, False), (False, False), (True, True)):
         if hit:
             gx, gy = px, py
         else:
@@ -223,6 +225,8 @@ def check_e2e(arc, frac):
         w = World.restore(e2e_world(), cfg)
         w.step(("ADD", "probe", "p"))
         w.step(("RAW", "G0 X%s Y%s" % (num(sx), num(sy))))
+        if retracted:
+            w.step(("RAW", "G1 E-1 F1800"))
         i, j = cx - sx, cy - sy
         if arc[6:] and arc[6]:
             # axis-aligned centre: the zero offset word is left out (a missing I/J word means 0)
@@ -232,9 +236,10 @@ def check_e2e(arc, frac):
             cmd = "%s X%s Y%s I%s J%s" % ("G2" if cw else "G3", num(ex), num(ey), num(i), num(j))
         st = w.step(("RAW", cmd))
         f = st.feeds[0]
-        if hit and f.fwd:
-            return ("C16 arc %r from (%r, %r) passes through the centre of a radius-1 region at (%r, %r) but was "
-                    "forwarded: %r" % (cmd, sx, sy, gx, gy, f.result))
+        if hit and (cmd in f.fwd if retracted else f.fwd):
+            return ("C16 arc %r from (%r, %r)%s passes through the centre of a radius-1 region at (%r, %r) but was "
+                    "forwarded: %r" % (cmd, sx, sy, " (issued after the retraction G1 E-1)" if retracted else "",
+                                       gx, gy, f.result))
         if not hit and f.fwd != [cmd]:
             return ("C16 arc %r from (%r, %r) stays 2.5 mm clear of the only region (disc r=1 at (%r, %r)) but was "
                     "not forwarded verbatim: %r" % (cmd, sx, sy, gx, gy, f.result))
@@ -373,7 +378,7 @@ def enumerate_inputs(ctx):
                          dict(form="R", chord=list(next(iter(chords(q)))))],
                 parts=[dict(name="c16-ij", arcs=tot["ij"][0], multi_segment=tot["ij"][1]),
                        dict(name="c16-r", chords=tot["r"][0], r_form_d2_signature=d2),
-                       dict(name="c16-e2e", hook_runs=tot["e2e"][0], axis_aligned_with_omitted_zero_word=tot["e2e-aligned"][0],
+                       dict(name="c16-e2e", hook_runs=tot["e2e"][0], variants_per_run="disc on the arc / disc 3.5 mm off the arc / disc on the arc with the filament retracted", axis_aligned_with_omitted_zero_word=tot["e2e-aligned"][0],
                             same_text_at_two_places=tot["e2e-repeat"][0])],
                 violations=uniq)
 
